@@ -52,7 +52,7 @@ def run(module, cfg=None, workers=8, simulate=None, depth=None, env=None, timeou
     """Run TLC on SPEC/<module>.tla with SPEC/<cfg>.  Returns TlcResult."""
     r = TlcResult()
     meta = tempfile.mkdtemp(prefix="tlc-", dir=scratch())
-    jopts = ["-XX:+UseParallelGC", "-Xmx" + xmx, "-Xss1g"]
+    jopts = ["-XX:+UseParallelGC", "-Xmx" + xmx, "-Xss1g", "-Djava.io.tmpdir=" + meta]      # SANY unpacks the standard modules into java.io.tmpdir
     if dfs:
         jopts.append("-Dtlc2.tool.queue.IStateQueue=StateDeque")
     cmd = ["java"] + jopts + ["-cp", JAR, "tlc2.TLC", "-metadir", meta, "-cleanup", "-noGenerateSpecTE",
